@@ -383,15 +383,74 @@ theorem iloop_box (P : Prob n K) (hW : WF P) (R : IParams K) (hT : R.tiny = 0) (
       · rename_i s' hs'; exact ipass_box P hW R hT hS s h s' (Or.inr hs')
     · exact h
 
+/-! ### the final rescaling -/
+
+/-- scaling a point of the box towards the origin keeps it in the box (whatever `np.sqrt` returns) -/
+theorem rescale_box (P : Prob n K) (hW : WF P) (R : IParams K) (hd : 0 ≤ P.delta) (x : Fin n → K)
+    (h : ∀ i, geLo (P.xl i) (x i) ∧ leHi (P.xu i) (x i)) (i : Fin n) :
+    geLo (P.xl i) (rescale R P.delta x i) ∧ leHi (P.xu i) (rescale R P.delta x i) := by
+  unfold rescale
+  split
+  · rename_i hgt
+    have hpos : 0 < R.sqrtO (x ⬝ᵥ x) := lt_of_le_of_lt hd hgt
+    have hl0 : 0 ≤ P.delta / R.sqrtO (x ⬝ᵥ x) := div_nonneg hd hpos.le
+    have hl1 : P.delta / R.sqrtO (x ⬝ᵥ x) ≤ 1 := (div_le_one hpos).mpr hgt.le
+    simp only [Pi.smul_apply, smul_eq_mul]
+    constructor
+    · intro l hl
+      have h1 := (h i).1 l hl
+      have h2 := hW.lo i l hl
+      rcases le_total 0 (x i) with hx | hx
+      · exact le_trans h2 (mul_nonneg hl0 hx)
+      · have : x i ≤ P.delta / R.sqrtO (x ⬝ᵥ x) * x i := by nlinarith
+        linarith
+    · intro u hu
+      have h1 := (h i).2 u hu
+      have h2 := hW.hi i u hu
+      rcases le_total 0 (x i) with hx | hx
+      · have : P.delta / R.sqrtO (x ⬝ᵥ x) * x i ≤ x i := by nlinarith
+        linarith
+      · exact le_trans (mul_nonpos_of_nonneg_of_nonpos hl0 hx) h2
+  · exact h i
+
+/-- **after the rescaling the step is in the ball, whatever the rotations did**, as soon as `np.sqrt` never returns less
+than the square root -/
+theorem rescale_ball (R : IParams K) (hS : SqrtUp R) (delta : K) (x : Fin n → K) :
+    rescale R delta x ⬝ᵥ rescale R delta x ≤ delta ^ 2 := by
+  have hxx : 0 ≤ x ⬝ᵥ x := Finset.sum_nonneg fun i _ => mul_self_nonneg _
+  obtain ⟨hr0, hr2⟩ := hS _ hxx
+  unfold rescale
+  split
+  · rename_i hgt
+    rw [smul_dotProduct, dotProduct_smul, smul_eq_mul, smul_eq_mul]
+    rcases hr0.eq_or_lt with h0 | hpos
+    · -- the root is 0: the vector is 0
+      have hz : x ⬝ᵥ x = 0 := by
+        rw [← h0] at hr2
+        exact le_antisymm (by simpa using hr2) hxx
+      rw [hz, mul_zero, mul_zero]
+      exact sq_nonneg _
+    · have hR2 : 0 < R.sqrtO (x ⬝ᵥ x) ^ 2 := by positivity
+      calc delta / R.sqrtO (x ⬝ᵥ x) * (delta / R.sqrtO (x ⬝ᵥ x) * (x ⬝ᵥ x))
+          = delta ^ 2 * ((x ⬝ᵥ x) / R.sqrtO (x ⬝ᵥ x) ^ 2) := by field_simp
+        _ ≤ delta ^ 2 * 1 := by
+            apply mul_le_mul_of_nonneg_left _ (sq_nonneg _)
+            exact (div_le_one hR2).mpr hr2
+        _ = delta ^ 2 := mul_one _
+  · rename_i hle
+    have hle' : R.sqrtO (x ⬝ᵥ x) ≤ delta := not_lt.mp hle
+    calc x ⬝ᵥ x ≤ R.sqrtO (x ⬝ᵥ x) ^ 2 := hr2
+      _ ≤ delta ^ 2 := pow_le_pow_left₀ hr0 hle' 2
+
 /-- **C15, bounds (second phase).**  Whatever the data, the sampling rule and the number of passes, with `TINY = 0`
 and a square root that is never too small, the step of the second phase lies within the bounds exactly. -/
-theorem improve_in_box (P : Prob n K) (hW : WF P) (R : IParams K) (hT : R.tiny = 0) (hS : SqrtUp R) (fuel : ℕ)
+theorem improve_in_box (P : Prob n K) (hW : WF P) (R : IParams K) (hT : R.tiny = 0) (hS : SqrtUp R) (hd : 0 ≤ P.delta) (fuel : ℕ)
     (s : ISt n K) (h : IBox P s) (i : Fin n) :
     geLo (P.xl i) (improve P R fuel s i) ∧ leHi (P.xu i) (improve P R fuel s i) := by
   unfold improve
   split
   · exact h i
-  · exact iloop_box P hW R hT hS fuel s h i
+  · exact rescale_box P hW R hd _ (iloop_box P hW R hT hS fuel s h) i
 
 /-- **C16 (second phase): the safeguard.**  The step returned is not worse for the model than the step it started from. -/
 theorem improve_never_worse (P : Prob n K) (R : IParams K) (fuel : ℕ) (s : ISt n K) :
@@ -637,15 +696,18 @@ theorem iloop_ball (P : Prob n K) (hW : WF P) (R : IParams K) (hT : R.tiny = 0) 
       · rename_i s' hs'; exact ipass_ball P R hT hE s hb h s' (Or.inr hs')
     · exact h
 
-/-- **C15, radius (second phase).**  With `TINY = 0` and an exact square root the rotations never leave the ball. -/
-theorem improve_in_ball (P : Prob n K) (hW : WF P) (R : IParams K) (hT : R.tiny = 0) (hE : SqrtExact R) (fuel : ℕ)
-    (s : ISt n K) (hb : IBox P s) (h : IBall P s) :
+/-- **C15, radius (second phase).**  Whatever the rotations did (any sampling rule, any number of passes, any rounding
+in them), the step of the second phase lies within the radius as soon as `np.sqrt` never returns less than the square
+root: the rotations keep the norm in exact arithmetic (`iloop_ball`), and the last statement before the safeguard scales
+the step back onto the trust region. -/
+theorem improve_in_ball (P : Prob n K) (R : IParams K) (hS : SqrtUp R) (fuel : ℕ)
+    (s : ISt n K) (h : IBall P s) :
     improve P R fuel s ⬝ᵥ improve P R fuel s ≤ P.delta ^ 2 := by
   unfold improve
   simp only
   split
   · exact h
-  · exact iloop_ball P hW R hT hE fuel s hb h
+  · exact rescale_ball R hS P.delta _
 
 /-! ### the solver as a whole -/
 
@@ -666,24 +728,24 @@ theorem qval_eq_quad (P : Prob n K) (x : Fin n → K) : qval P x = Cobyqa.Oracle
 /-- **C15, bounds (whole solver).**  `tangential_byrd_omojokun`, both phases, `improve_tcg` on or off: the step lies
 within the bounds exactly. -/
 theorem tcgFull_in_box (P : Prob n K) (hW : WF P) (Q : Params n K) (hQ : QOK P Q) (R : IParams K) (hT : R.tiny = 0)
-    (hS : SqrtUp R) (fuel fuel2 : ℕ) (imp : Bool) (i : Fin n) :
+    (hS : SqrtUp R) (hd : 0 ≤ P.delta) (fuel fuel2 : ℕ) (imp : Bool) (i : Fin n) :
     geLo (P.xl i) (tcgFull P Q R fuel fuel2 imp i) ∧ leHi (P.xu i) (tcgFull P Q R fuel fuel2 imp i) := by
   have hbb := loop_inv P hW Q hQ fuel (init P) (init_invA P hW (sq_nonneg _))
   unfold tcgFull
   simp only [loopB_fst]
   split
-  · exact improve_in_box P hW R hT hS fuel2 _ (fun j => hbb.1 j) i
+  · exact improve_in_box P hW R hT hS hd fuel2 _ (fun j => hbb.1 j) i
   · exact hbb.1 i
 
-/-- **C15, radius (whole solver)**, exact square root. -/
-theorem tcgFull_in_ball (P : Prob n K) (hW : WF P) (Q : Params n K) (hQ : QOK P Q) (R : IParams K) (hT : R.tiny = 0)
-    (hE : SqrtExact R) (fuel fuel2 : ℕ) (imp : Bool) :
+/-- **C15, radius (whole solver)**, for a square root that is never too small. -/
+theorem tcgFull_in_ball (P : Prob n K) (hW : WF P) (Q : Params n K) (hQ : QOK P Q) (R : IParams K)
+    (hS : SqrtUp R) (fuel fuel2 : ℕ) (imp : Bool) :
     tcgFull P Q R fuel fuel2 imp ⬝ᵥ tcgFull P Q R fuel fuel2 imp ≤ P.delta ^ 2 := by
   have hbb := loop_inv P hW Q hQ fuel (init P) (init_invA P hW (sq_nonneg _))
   unfold tcgFull
   simp only [loopB_fst]
   split
-  · exact improve_in_ball P hW R hT hE fuel2 _ (fun j => hbb.1 j) hbb.2
+  · exact improve_in_ball P R hS fuel2 _ hbb.2
   · exact hbb.2
 
 /-- **C16 (whole solver): never worse than not moving**, whatever the square root and the sampling do. -/
